@@ -163,6 +163,33 @@ def u_matrix_of(df):
     return u
 
 
+class time_limit(object):
+    """a wall-clock limit for one call of the library (worker processes run it in their main thread): a fit that does not come
+    back is reported as a TimeoutError of that fit instead of hanging the check"""
+
+    def __init__(self, seconds):
+        self.seconds = seconds
+
+    def __enter__(self):
+        import signal
+
+        def boom(signum, frame):
+            raise TimeoutError('the call did not return within %d s' % self.seconds)
+        try:
+            self.old = signal.signal(signal.SIGALRM, boom)
+            signal.alarm(self.seconds)
+        except ValueError:          # not in the main thread: no limit
+            self.old = None
+        return self
+
+    def __exit__(self, *exc):
+        import signal
+        if self.old is not None:
+            signal.alarm(0)
+            signal.signal(signal.SIGALRM, self.old)
+        return False
+
+
 def fit_vine(df, vtype, trunc, past=None):
     """fit a vine; with `past` (a table) the instance is first fitted to that table with another truncation, sampled and asked for a
     likelihood: the properties speak of the model after the (last) fit"""
@@ -172,14 +199,16 @@ def fit_vine(df, vtype, trunc, past=None):
     m = VineCopula(vtype)
     if past is not None:
         try:
-            m.fit(past, truncated=max(1, past.shape[1] - 1))
-            st = np.random.get_state()
-            m.sample(1)
-            np.random.set_state(st)
-            m.get_likelihood(np.full((1, past.shape[1]), 0.4))
+            with time_limit(90):
+                m.fit(past, truncated=max(1, past.shape[1] - 1))
+                st = np.random.get_state()
+                m.sample(1)
+                np.random.set_state(st)
+                m.get_likelihood(np.full((1, past.shape[1]), 0.4))
         except Exception:
             pass
-    m.fit(df, truncated=trunc)
+    with time_limit(90):
+        m.fit(df, truncated=trunc)
     return m
 
 
